@@ -520,6 +520,20 @@ func runBlock(r *simk.Run, f focus) *simk.Violation {
 			fail("harness", "block: %v", err)
 			return
 		}
+		// some transactions were looked at earlier under other rules (mempool admission before a rule
+		// change at an upgrade timestamp): nothing computed then may leak into this block's execution
+		if c.Bool(0.2) {
+			alt := *rules
+			alt.StorageKeyReadUnits += 7
+			alt.StorageValueWriteUnits += 3
+			alt.BaseComputeUnits += 50
+			for _, tx := range txs {
+				if c.Bool(0.5) {
+					_, _ = tx.Units(env.handler(), &alt)
+				}
+			}
+			hdrNote += "txs-seen-under-earlier-rules "
+		}
 		normalOp := !c.Bool(0.15)
 		cfgA := chain.Config{TargetBuildDuration: time.Second, TransactionExecutionCores: 1 + c.Intn(8), StateFetchConcurrency: 1 + c.Intn(8), TargetTxsSize: 1 << 20}
 		sigA := 1 + c.Intn(6)
